@@ -70,6 +70,7 @@ def run(f, fixture, rep, cfg, tier):
     by_tag = {}
     for tag, data, c in ents:
         by_tag.setdefault(tag, []).append((data, c))
+    ent_terms = [(tag, tb.term(c.args[2])) for (tag, _d, c) in ents]
 
     # ---- R2 scalar fields ----------------------------------------------------------------------
     for field, (tag, want) in SCALARS.items():
@@ -128,6 +129,11 @@ def run(f, fixture, rep, cfg, tier):
         rep.check(ok, "R2", "file|%s" % tag, "%s <- per-file %s" % (tag, suffix.strip(".%s()")), "%s is written as %s" % (tag, [g[len(ID):][:200] for g in got]), pd.span)
     mt = [d for d, _c in by_tag.get("RPMTAG_FILEMTIMES", [])]
     want_mt = ID + "Int32{buf[write:std::vec::Vec::<T, A>::push(phi(self.source_date<Some>.0 | %s.modified_at))]}" % FILES_ITEM
+    want_mt2 = ID + "Int32{buf[write:std::vec::Vec::<T, A>::push(MIN(self.source_date, %s.modified_at))]}" % FILES_ITEM
+    if mt != [want_mt]:
+        from idioms import normalize
+        mt = [render(normalize(f, t_)) for (tg_, t_) in ent_terms if tg_ == "RPMTAG_FILEMTIMES"]
+        want_mt = want_mt2
     rep.check(mt == [want_mt], "R2", "file|RPMTAG_FILEMTIMES", "FILEMTIMES <- per-file mtime, or the source date when that is earlier",
               "FILEMTIMES is written as %s" % [x[len(ID):][:220] for x in mt], pd.span)
     caps = [d for d, _c in by_tag.get("RPMTAG_FILECAPS", [])]
